@@ -4,9 +4,9 @@ import CogentModel.Model.PhyloTree
 
   The implementation finds the farthest tip pair (`max_tip_tip_distance`: first maximum of
   the tip-by-tip matrix in row-major order), climbs from the deeper tip until half the
-  distance is covered and either re-roots at an existing node or *inserts a new unnamed
-  node into the tree it was called on* and re-roots there.  The returned tree is modelled
-  here; the in-place edit of the argument is checked on the implementation (snapshot).
+  distance is covered and either re-roots at an existing node or splits the edge at the midpoint
+  by inserting a new unnamed node (on a deep copy of the tree since commit 20f373142) and
+  re-roots there.  `midPlan` is the search, `execPlan` the transformation.
 -/
 namespace CogentModel.Phylo
 open PTree
@@ -38,13 +38,33 @@ def truthyLen : Option Rat → Rat
   | some x => x
   | none => 0
 
-/-- climb from the tip: `lens` are the lengths from the tip upwards; returns
-(number of nodes climbed past, distance climbed, length of the node stopped at) -/
-def climb (half : Rat) : List (Option Rat) → Nat → Rat → Except TErr (Nat × Rat × Rat)
-  | [], _, _ => .error .typeError                  -- ran into the root (length None)
-  | none :: _, _, _ => .error .typeError
-  | some x :: rest, k, climbed =>
-    if climbed + x < half then climb half rest (k + 1) (climbed + x) else .ok (k, climbed, x)
+/-- one step of the path from the root to a tip: the node `par` at path `pp`, and its child `v`
+at position `idx` (`climb_node` and `climb_node.parent` of the implementation's loop) -/
+structure PFrame where
+  pp : List Nat
+  par : RT
+  idx : Nat
+  pre : List RT
+  v : RT
+  post : List RT
+
+/-- the frames met when descending along a path (`acc` = path of the current node) -/
+def framesOn : RT → List Nat → List Nat → List PFrame
+  | _, [], _ => []
+  | .node n l cs, i :: p, acc =>
+    match pick cs i with
+    | none => []
+    | some (pre, x, post) => ⟨acc, .node n l cs, i, pre, x, post⟩ :: framesOn x p (acc ++ [i])
+
+/-- `while dist_climbed + climb_node.length < half: dist_climbed += climb_node.length;
+climb_node = climb_node.parent` — frames are listed from the tip upwards; returns the frame
+stopped at and the distance climbed below it -/
+def climbF (half : Rat) : List PFrame → Rat → Except TErr (PFrame × Rat × Rat)
+  | [], _ => .error .typeError                  -- ran into the root (length None)
+  | f :: rest, climbed =>
+    match f.v.len with
+    | none => .error .typeError
+    | some x => if climbed + x < half then climbF half rest (climbed + x) else .ok (f, climbed, x)
 
 /-- replace the children of the node at `path` -/
 def updateAt (f : List RT → Option (List RT)) : RT → List Nat → Option RT
@@ -54,41 +74,62 @@ def updateAt (f : List RT → Option (List RT)) : RT → List Nat → Option RT
     | none => none
     | some (pre, x, post) => (updateAt f x p).map fun x' => .node n l (pre ++ x' :: post)
 
-def rootAtMidpoint (t : RT) : Except TErr RT :=
+/-- what the search decides: re-root at an existing node, or first split the edge above child
+`idx` of the node at `parentPath`, leaving length `y` below the new node -/
+inductive MidPlan where
+  | at (path : List Nat)
+  | split (parentPath : List Nat) (idx : Nat) (y : Rat)
+  deriving DecidableEq
+
+/-- `new_root = type(self)(); new_root.parent = climb_node.parent; climb_node.parent = new_root;
+climb_node.length = y; new_root.length = old_br_len - y`: the new unnamed node is appended to the
+parent's children, the climbed node becomes its only child -/
+def splitEdge (idx : Nat) (y : Rat) (cs : List RT) : Option (List RT) :=
+  match pick cs idx with
+  | none => none
+  | some (pre, v, post) =>
+    match v.len with
+    | none => none
+    | some x => some (pre ++ post ++ [PTree.node "" (some (x - y)) [PTree.node v.name (some y) v.children]])
+
+def reroot? (t : RT) (p : List Nat) : Except TErr RT :=
+  match rerootAt t p with
+  | some r => .ok r
+  | none => .error .treeError
+
+/-- `…unrooted_deepcopy()` from the chosen node -/
+def execPlan (t : RT) : MidPlan → Except TErr RT
+  | .at p => reroot? t p
+  | .split parentPath idx y =>
+    match updateAt (splitEdge idx y) t parentPath with
+    | none => .error .treeError
+    | some t' =>
+      match nodeAt t' parentPath with
+      | none => .error .treeError
+      | some par => reroot? t' (parentPath ++ [par.children.length - 1])
+
+/-- the search for the midpoint: farthest pair, deeper tip, climb -/
+def midPlan (t : RT) : Except TErr MidPlan :=
   let ts := tips t
   let (maxd, n1, n2) := argmaxPair ts (getDistances (1 : Rat) t)
   let half := maxd / 2
-  let reroot (t' : RT) (p : List Nat) : Except TErr RT :=
-    match rerootAt t' p with
-    | some r => .ok r
-    | none => .error .treeError
-  if maxd = 0 then reroot t []
+  if maxd = 0 then .ok (.at [])
   else
     match findPath n1 t, findPath n2 t with
     | some p1, some p2 =>
       let k := commonPrefixLen p1 p2
       let d1 := ((lensOnPath t p1).drop k).foldl (fun s l => s + truthyLen l) 0
       let p := if half < d1 then p1 else p2
-      match climb half (lensOnPath t p).reverse 0 0 with
+      match climbF half (framesOn t p []).reverse 0 with
       | .error e => .error e
-      | .ok (up, climbed, x) =>
-        -- the node stopped at is `p.take (p.length - up)`; its parent:
-        let parentPath := p.take (p.length - up - 1)
-        if climbed + x = half then reroot t parentPath
-        else
-          let idx := (p.drop (p.length - up - 1)).headD 0
-          let y := half - climbed
-          let ins : List RT → Option (List RT) := fun cs =>
-            match pick cs idx with
-            | none => none
-            | some (pre, v, post) =>
-              some (pre ++ post ++ [PTree.node "" (some (x - y)) [PTree.node v.name (some y) v.children]])
-          match updateAt ins t parentPath with
-          | none => .error .treeError
-          | some t' =>
-            match nodeAt t' parentPath with
-            | none => .error .treeError
-            | some par => reroot t' (parentPath ++ [par.children.length - 1])
+      | .ok (f, climbed, x) =>
+        if climbed + x = half then .ok (.at f.pp)
+        else .ok (.split f.pp f.idx (half - climbed))
     | _, _ => .error .treeError
+
+def rootAtMidpoint (t : RT) : Except TErr RT :=
+  match midPlan t with
+  | .error e => .error e
+  | .ok plan => execPlan t plan
 
 end CogentModel.Phylo
